@@ -132,12 +132,14 @@ Definition malformed_ok (h : headers) (o : obs) : bool :=
   then (match o_ups o with [] => true | _ => false end && (Z.leb 400 (o_status o)))%bool
   else true.
 
-(* clause 4: the upstream receives the gateway's credential only, and no header of the Impersonate-*
+(* clause 4: the upstream receives the gateway's credential only (on the connection-upgrade path the bearer
+   wrapper is not applied: no Authorization header at all is then accepted too, never a client's), and no header of the Impersonate-*
    family other than one Impersonate-User value, Impersonate-Group and Impersonate-Extra-* (whose content
    is pinned by clause 1) *)
-Definition no_client_header_ok (token : string) (o : obs) : bool :=
+Definition no_client_header_ok (token : string) (upgrade : bool) (o : obs) : bool :=
   forallb (fun u =>
-    (list_eqb String.eqb (h_values H_AUTH u) [trim_ows ("Bearer " +++ token)] &&
+    ((list_eqb String.eqb (h_values H_AUTH u) [trim_ows ("Bearer " +++ token)]
+      || (upgrade && match h_values H_AUTH u with [] => true | _ => false end)) &&
      forallb (fun e =>
        if has_prefix (fst e) H_IMP then
          ((String.eqb (fst e) H_USER && Nat.eqb (List.length (h_values H_USER u)) 1)
@@ -145,4 +147,4 @@ Definition no_client_header_ok (token : string) (o : obs) : bool :=
        else true) u)%bool) (o_ups o).
 
 Definition spec_clauses (token : string) (h : headers) (id : identity) (deny : list imp_item) (o : obs) : list bool :=
-  [identity_ok h id deny o; denied_ok h deny o; malformed_ok h o; no_client_header_ok token o].
+  [identity_ok h id deny o; denied_ok h deny o; malformed_ok h o; no_client_header_ok token (is_upgrade_request h) o].
